@@ -17,3 +17,5 @@ print(' '.join(x for x in w if len(x)==3 and x[0]=='C' and x[1:].isdigit()) or m
   git -C /repo checkout -- .
 done
 git -C /repo status --short | head -3
+# the evidence files these runs wrote describe changed trees: put the committed ones (clean runs) back
+git -C /verif checkout -- evidence
